@@ -375,7 +375,7 @@ def run_C04(ctx):
     for j in range(ctx.scale(1, 4)):
         recs = rnd.choice([100000, 100000, 500]) if j else 100000
         n = 1024 + rnd.randint(10, 34)
-        m = n if j == 0 else rnd.randint(18, 40)      # the first burst: every flush carries data (a batch of 1025 writes)
+        m = n      # every flush carries data (a batch of 1025 writes): the look-ahead of the replay then pins the batch compositions
         cases.append("TRACE 100000 1073741824 %d 1073741824 1 64 | A 1 0 x61 ; F 1 ; w 1 ; burst %d %d ; wi ; A 1 %d x62 ; F 1 ; wi ; G ; snap"
                      % (recs, n, m, m + 1))
         ctx.count("channel_full_bursts")
